@@ -168,7 +168,7 @@ def commitState (a1 : Alloc) (st1 : TxAlloc) (regs : List Nat) : AllocCommit :=
     if ovf > 0 then ((if metaEnd > dataEnd then metaEnd - ovf else dataEnd), metaEnd - ovf) else (dataEnd, metaEnd)
   let (dataList, dfreed) := releaseOverflow newData a1.maxPages dataEnd1
   let dataEnd2 := dataEnd1 - dfreed
-  let metaEnd2 := if dfreed > 0 ∧ metaEnd1 ≥ dataEnd2 then dataEnd2 else metaEnd1
+  let metaEnd2 := if dfreed > 0 ∧ metaEnd1 ≤ dataEnd1 ∧ metaEnd1 ≥ dataEnd2 then dataEnd2 else metaEnd1
   { updated := true, allocRegions := regs, dataEnd := dataEnd2, metaEnd := metaEnd2,
     metaList := metaList, dataList := dataList, overflowFreed := ovf }
 
@@ -223,7 +223,8 @@ theorem commitState_eq (a1 : Alloc) (st1 : TxAlloc) (regs : List Nat) :
     commitState a1 st1 regs =
       { updated := true, allocRegions := regs,
         dataEnd := dataEnd1 a1 st1 - (dataRel a1 st1).2,
-        metaEnd := if 0 < (dataRel a1 st1).2 ∧ dataEnd1 a1 st1 - (dataRel a1 st1).2 ≤ a1.mta.endMarker - (ovfRel a1 st1).2
+        metaEnd := if 0 < (dataRel a1 st1).2 ∧ a1.mta.endMarker - (ovfRel a1 st1).2 ≤ dataEnd1 a1 st1 ∧
+                        dataEnd1 a1 st1 - (dataRel a1 st1).2 ≤ a1.mta.endMarker - (ovfRel a1 st1).2
                    then dataEnd1 a1 st1 - (dataRel a1 st1).2 else a1.mta.endMarker - (ovfRel a1 st1).2,
         metaList := (ovfRel a1 st1).1, dataList := (dataRel a1 st1).1, overflowFreed := (ovfRel a1 st1).2 } := by
   unfold commitState dataRel dataEnd1 ovfRel
